@@ -12,14 +12,23 @@
                      setter stores for a missing argument) is an alternative iff the attribute of an instance built
                      with every optional argument at its default holds it
 
+  src_eq_C12         class -> (reads attributes by name at run time [getattr loops]?, attributes that the source text of
+                     __eq__ reads on BOTH self and other, attributes it reads on one of them only), following
+                     super().__eq__ / Base.__eq__ delegation (ast of inspect.getsource)
+  src_hash_C12       class -> (dynamic?, attributes that the source text of __hash__ reads on self)
+  stored_C12         class -> constructor parameter -> name of the attribute it is stored / read back under, where the
+                     two differ (c12_classes.ACCESSOR)
+
 Fail-closed: a class of the anchored modules that defines __eq__/__hash__ and is neither registered in
 c12_classes.CLASSES nor listed in NOT_ELEMENTS raises; a constructor parameter without a spec entry is caught by the
 [covers] side condition in Coq (the build of Props/C12.v fails)."""
+import ast
 import enum
 import importlib
 import inspect
 import os
 import random
+import textwrap
 import typing
 
 import numpy as np
@@ -59,6 +68,58 @@ def scan():
         if name not in found:
             found.append(name)
     return found, states
+
+
+# ------------------------------------------------------------------------------------------------ source text
+def defining_class(cls, meth):
+    for b in cls.__mro__:
+        if meth in b.__dict__ and inspect.isfunction(b.__dict__[meth]):
+            return b
+    return None
+
+
+def mentions(cls, meth, seen=None):
+    """(attributes read on self, attributes read on the second parameter, reads by computed name?) in the source of
+    [meth] as [cls] inherits it, following delegation to a base class's [meth]; leading underscores dropped"""
+    seen = seen if seen is not None else set()
+    b = defining_class(cls, meth)
+    if b is None or b in seen:
+        return set(), set(), False
+    seen.add(b)
+    fn = ast.parse(textwrap.dedent(inspect.getsource(b.__dict__[meth]))).body[0]
+    args = [a.arg for a in fn.args.args]
+    me, other = args[0], (args[1] if len(args) > 1 else None)
+    s, o, dyn = set(), set(), False
+    for n in ast.walk(fn):
+        if isinstance(n, ast.Attribute) and isinstance(n.value, ast.Name):
+            if n.value.id == me:
+                s.add(n.attr.lstrip("_"))
+            elif other is not None and n.value.id == other:
+                o.add(n.attr.lstrip("_"))
+        if isinstance(n, ast.Call) and isinstance(n.func, ast.Name) and n.func.id in ("getattr", "hasattr"):
+            dyn = True
+        if isinstance(n, ast.Call) and isinstance(n.func, ast.Attribute) and n.func.attr == meth:
+            for base in b.__mro__[1:]:
+                if meth in base.__dict__ and inspect.isfunction(base.__dict__[meth]):
+                    s2, o2, d2 = mentions(base, meth, seen)
+                    s, o, dyn = s | s2, o | o2, dyn or d2
+                    break
+    return s, o, dyn
+
+
+def source_rows():
+    eq_rows, hash_rows, stored_rows = [], [], []
+    for name in sorted(K.CLASSES):
+        cls = K.CLASSES[name]
+        s, o, d = mentions(cls, "__eq__")
+        eq_rows.append(f"  ({qstr(name)}, ({'true' if d else 'false'}, {qlist([qstr(a) for a in sorted(s & o)])}, "
+                       f"{qlist([qstr(a) for a in sorted(s ^ o)])}))")
+        hs, _, hd = mentions(cls, "__hash__")
+        hash_rows.append(f"  ({qstr(name)}, ({'true' if hd else 'false'}, {qlist([qstr(a) for a in sorted(hs)])}))")
+        acc = [(a, v) for (c, a), v in sorted(K.ACCESSOR.items()) if c == name and a != v]
+        if acc:
+            stored_rows.append(f"  ({qstr(name)}, {qlist([f'({qstr(a)}, {qstr(v)})' for a, v in acc])})")
+    return eq_rows, hash_rows, stored_rows
 
 
 # ------------------------------------------------------------------------------------------------ attribute types
@@ -200,7 +261,13 @@ def tables_text():
             "Definition optional_C12 : list (string * list string) := [\n" + ";\n".join(opt) + "\n].\n\n"
             f"Definition state_classes_C12 : list string := {qlist([qstr(s) for s in sorted(states)])}.\n\n"
             f"Definition dynamic_classes_C12 : list string := {qlist([qstr(s) for s in dyn])}.\n\n"
-            "Definition types_C12 : ttable := [\n" + ";\n".join(types_rows()) + "\n].\n")
+            "Definition types_C12 : ttable := [\n" + ";\n".join(types_rows()) + "\n].\n\n"
+            "Definition src_eq_C12 : list (string * (bool * list string * list string)) := [\n" +
+            ";\n".join(source_rows()[0]) + "\n].\n\n"
+            "Definition src_hash_C12 : list (string * (bool * list string)) := [\n" +
+            ";\n".join(source_rows()[1]) + "\n].\n\n"
+            "Definition stored_C12 : list (string * list (string * string)) := [\n" +
+            ";\n".join(source_rows()[2]) + "\n].\n")
 
 
 def write_tables(ctx=None):
